@@ -1,6 +1,6 @@
 \* C02, thorough tier. Object values deviate from the base object in <= 3 fields (Devs = 3).
 \* One run checks the theorems on every case and prints shapes + grid + cases (-workers 1).
-\* Measured: 81,486 cases, 162,972 distinct states, depth 2; 1 worker 310-390 s.
+\* Measured: 90,749 cases (42 shapes), 181,498 distinct states, depth 2; 1 worker 330-400 s.
 CONSTANTS
   Devs = 3
   Emit = TRUE
